@@ -88,12 +88,13 @@ func init() {
 		Explanation: "(R1) the comparison operators Validate accepts are exactly the ones Match handles, node operators likewise, and the inner numeric switch of Match covers exactly the operators routed to the numeric branch; " +
 			"(R2) in Match the looked-up tag value is read only where the lookup's ok result is known true (a missing key is never treated as the empty string); " +
 			"(R3) Validate rejects a nil node before touching it (nil children are produced by JSON null) and every child handed to the recursion goes through that same check; Match recursion only descends into f.Nodes; " +
-			"(R4) protocol.FilterNode has no map-typed field transitively, so the canonical marshalling behind Hash is order-deterministic, and Hash sizes its buffer with SizeVT of the same node.",
+			"(R5) the exact-decimal engine is the only number parser or comparator reachable from Match (no strconv/big/Sscan parsing, no float comparison); (R4) protocol.FilterNode has no map-typed field transitively, so the canonical marshalling behind Hash is order-deterministic, and Hash sizes its buffer with SizeVT of the same node.",
 		NotDecided: "decimal comparison semantics of the external udecimal package; the boolean results themselves (values); equality of hashes is reduced to determinism of the marshaller's input shape.",
 		Rules: map[string]string{
 			"C15.R1": "K7 case-set agreement between filter.Validate and filter.Match over FilterNode.Cmp / FilterNode.Op string constants",
 			"C15.R2": "contradiction rule: every use of `val` from `val, ok := tags[f.Key]` is dominated by the true edge of `ok`",
 			"C15.R3": "guard: first field access of Validate's parameter is dominated by a non-nil test of it",
+			"C15.R5": "K4 who-may-call: in the functions reachable from filter.Match no number parser other than udecimal and no floating-point comparison",
 			"C15.R4": "type rule: no map reachable from protocol.FilterNode; Hash marshals into a buffer sized by SizeVT of the same receiver",
 		},
 		Run: runC15,
@@ -126,8 +127,10 @@ func runC15(c *Ctx) {
 		f := ci.Common().StaticCallee()
 		return f != nil && f.Pkg != nil && f.Pkg.Pkg.Name() == "udecimal" && f.Name() == "Parse"
 	}
-	parses := CallsIn(match, false, isParse)
-	if c.Anchor("C15.R1", "udecimal.Parse call in filter.Match", len(parses) > 0) {
+	// the parse may sit in Match itself or in a helper it calls (resolved through the call graph)
+	parseLike := w.wrapMay(isParse, 3)
+	parses := CallsIn(match, false, func(ci ssa.CallInstruction) bool { return parseLike(ci) })
+	if c.Anchor("C15.R1", "udecimal.Parse reachable from filter.Match", len(parses) > 0) {
 		inner, outerNumeric := map[string]bool{}, map[string]bool{}
 		for _, sc := range mc {
 			dominatedByParse := false
@@ -145,7 +148,7 @@ func runC15(c *Ctx) {
 				if sc.Bin.Op == token.NEQ {
 					tgt = ifi.Block().Succs[1]
 				}
-				if PathFromBlockAvoiding(tgt, func(ssa.Instruction) bool { return false }, instrPred(isParse)) != nil {
+				if PathFromBlockAvoiding(tgt, func(ssa.Instruction) bool { return false }, parseLike) != nil {
 					outerNumeric[sc.K] = true
 				}
 			}
@@ -186,6 +189,59 @@ func runC15(c *Ctx) {
 			}
 		})
 		c.CheckAt("C15.R1", "filter."+fn.Name()+": failing default", w.Pos(fn.Pos()), hasFailingDefault, "an unknown operator must end in a non-nil error return reached through the false edges of all cases")
+	}
+
+	// ---- R5: the exact-decimal engine is the only number parser/comparator reachable from Match
+	{
+		reach := map[*ssa.Function]bool{}
+		var visit func(f *ssa.Function, d int)
+		visit = func(f *ssa.Function, d int) {
+			if f == nil || reach[f] || d < 0 || !w.inModule(f) {
+				return
+			}
+			reach[f] = true
+			EachInstr(f, func(in ssa.Instruction) {
+				if ci := asCall(in); ci != nil {
+					visit(w.Callee(ci), d-1)
+				}
+			})
+			for _, a := range f.AnonFuncs {
+				visit(a, d-1)
+			}
+		}
+		visit(match, 4)
+		n := 0
+		for f := range reach {
+			EachInstr(f, func(in ssa.Instruction) {
+				if ci := asCall(in); ci != nil {
+					if cal := ci.Common().StaticCallee(); cal != nil && cal.Pkg != nil {
+						pkg, name := cal.Pkg.Pkg.Path(), cal.Name()
+						banned := (pkg == "strconv" && (strings.HasPrefix(name, "Parse") || name == "Atoi")) ||
+							pkg == "math/big" || (pkg == "fmt" && strings.HasPrefix(name, "Sscan"))
+						if banned {
+							n++
+							c.Check("C15.R5", in, "number parser other than the exact-decimal engine: "+cal.Pkg.Pkg.Name()+"."+name, false,
+								"numeric filter operators must agree with exact decimal comparison and be false for numerals the engine rejects; a second parser (float/int) accepts different numerals and rounds")
+						}
+					}
+				}
+				if b, ok := in.(*ssa.BinOp); ok {
+					if bt, ok := b.X.Type().Underlying().(*types.Basic); ok && bt.Info()&types.IsFloat != 0 {
+						switch b.Op {
+						case token.LSS, token.GTR, token.LEQ, token.GEQ, token.EQL, token.NEQ:
+							n++
+							c.Check("C15.R5", in, "floating-point comparison on the Match path", false, "float comparison cannot agree with exact decimal comparison for every accepted numeral")
+						}
+					}
+				}
+			})
+		}
+		names := []string{}
+		for f := range reach {
+			names = append(names, FuncName(f))
+		}
+		sort.Strings(names)
+		c.CheckAt("C15.R5", "filter.Match call closure: only the exact-decimal engine parses/compares numbers", w.Pos(match.Pos()), n == 0, fmt.Sprintf("functions scanned: %v", names))
 	}
 
 	// ---- R2
